@@ -52,57 +52,84 @@ func scFactory(tag string, next *int) func() *scBuf {
 	return func() *scBuf { *next++; return &scBuf{id: *next, tag: tag} }
 }
 
-func TestC03SharedConstructor(t *testing.T) {
-	col := evid.New("C03", "one-function-several-registrations", "2-4 separate registration calls, each passing one of two closures of one factory (the same code pointer; calls may pass the very same function value) with its own lifetime and a disjoint non-empty set of interfaces (godi.As); the interfaces are resolved in a generated order from the provider and from 1-3 scopes; oracle per answer: the instance was made by the closure that call registered; for a transient call it has never been handed out before, under any interface of any call, and is never handed out again; for a scoped call it is the one instance of (call, scope) - never one seen under another call or in another scope; for a singleton call the one instance of the call; non-trivial = one function value registered by a transient call and by a scoped or singleton call, both resolved in one scope")
+func TestC03SharedConstructor(t *testing.T) { runSharedConstructor(t, "C03") }
+
+// TestC01SharedConstructor: the same programs seen from the singleton registrations: each of
+// them is one registration of its own, constructed once at Build, whatever else was registered
+// with the same function.
+func TestC01SharedConstructor(t *testing.T) { runSharedConstructor(t, "C01") }
+
+func runSharedConstructor(t *testing.T, prop string) {
+	col := evid.New(prop, "one-function-several-registrations", "2-4 separate registration calls, each passing one of two closures of one factory (the same code pointer; calls may pass the very same function value) with its own lifetime and its own identity: a disjoint non-empty set of interfaces (godi.As), a name of its own, or membership in one group; the identities are resolved in a generated order from the provider and from 1-3 scopes; oracle: Build ran the function once per singleton call; per answer: the instance was made by the closure that call registered; for a transient call it has never been handed out before, under any identity of any call, and is never handed out again; for a scoped call it is the one instance of (call, scope) - never one seen under another call or in another scope; for a singleton call the one instance of the call; a group yields one member per call, in call order; non-trivial = one function value registered by two calls of which at least one is a singleton or scoped call, both resolved in one scope")
 	defer col.Flush()
+	bufType := reflect.TypeOf(&scBuf{})
 	rapid.Check(t, func(rt *rapid.T) {
 		next := 0
 		fns := map[string]func() *scBuf{"f": scFactory("f", &next), "g": scFactory("g", &next)}
 		type call struct {
 			fn     string
 			life   int
-			ifaces []int
+			ifaces []int  // identity: interfaces ...
+			name   string // ... or a name ...
+			member int    // ... or the n-th member of group "grp" (-1: not a member)
 		}
 		free := rapid.Permutation([]int{0, 1, 2, 3}).Draw(rt, "ifaceOrder")
 		ncalls := rapid.IntRange(2, 4).Draw(rt, "ncalls")
 		var calls []call
-		ownerOf := map[int]int{} // interface -> call
 		coll := godi.NewCollection()
 		var desc []string
+		members, singletons := 0, 0
 		for i := 0; i < ncalls; i++ {
-			c := call{fn: rapid.SampledFrom([]string{"f", "f", "g"}).Draw(rt, "fn"), life: rapid.IntRange(0, 2).Draw(rt, "life")}
-			n := 1
-			if len(free)-(ncalls-i-1) > 1 && rapid.Bool().Draw(rt, "two") {
-				n = 2
-			}
-			c.ifaces, free = free[:n], free[n:]
+			c := call{fn: rapid.SampledFrom([]string{"f", "f", "g"}).Draw(rt, "fn"), life: rapid.IntRange(0, 2).Draw(rt, "life"), member: -1}
 			var opts []godi.AddOption
-			var names []string
-			for _, k := range c.ifaces {
-				opts = append(opts, scIfaces[k].as())
-				names = append(names, scIfaces[k].name)
-				ownerOf[k] = i
+			var ident string
+			switch form := rapid.IntRange(0, 2).Draw(rt, "identity"); {
+			case form == 0 && len(free) > 0:
+				n := 1
+				if len(free) > 1 && rapid.Bool().Draw(rt, "two") {
+					n = 2
+				}
+				c.ifaces, free = free[:n], free[n:]
+				var names []string
+				for _, k := range c.ifaces {
+					opts = append(opts, scIfaces[k].as())
+					names = append(names, scIfaces[k].name)
+				}
+				ident = fmt.Sprintf("As%v", names)
+			case form == 1:
+				c.name = fmt.Sprintf("n%d", i)
+				opts = append(opts, godi.Name(c.name))
+				ident = "Name(" + c.name + ")"
+			default:
+				c.member = members
+				members++
+				opts = append(opts, godi.Group("grp"))
+				ident = fmt.Sprintf("Group(grp)#%d", c.member)
 			}
 			var err error
 			switch c.life {
 			case 0:
 				err = coll.AddSingleton(fns[c.fn], opts...)
+				singletons++
 			case 1:
 				err = coll.AddScoped(fns[c.fn], opts...)
 			default:
 				err = coll.AddTransient(fns[c.fn], opts...)
 			}
 			if err != nil {
-				rt.Fatalf("VIOLATION C03/shared-constructor [register]: call %d (%s, %s, As %v) was refused: %v\nearlier calls: %s", i, c.fn, lifeName(c.life), names, err, strings.Join(desc, " ; "))
+				rt.Fatalf("VIOLATION %s/shared-constructor [register]: call %d (%s, %s, %s) was refused: %v\nearlier calls: %s", prop, i, c.fn, lifeName(c.life), ident, err, strings.Join(desc, " ; "))
 			}
 			calls = append(calls, c)
-			desc = append(desc, fmt.Sprintf("call%d:%s(%s) As%v", i, lifeName(c.life), c.fn, names))
+			desc = append(desc, fmt.Sprintf("call%d:%s(%s) %s", i, lifeName(c.life), c.fn, ident))
 		}
 		p, err := coll.Build()
 		if err != nil {
-			rt.Fatalf("VIOLATION C03/shared-constructor [build]: Build failed: %v\n%s", err, strings.Join(desc, " ; "))
+			rt.Fatalf("VIOLATION %s/shared-constructor [build]: Build failed: %v\n%s", prop, err, strings.Join(desc, " ; "))
 		}
 		defer p.Close()
+		if next != singletons {
+			rt.Fatalf("VIOLATION C01/once-at-build [shared-constructor]: %d singleton registrations, the constructors ran %d times during Build\n%s", singletons, next, strings.Join(desc, " ; "))
+		}
 		targets := []godi.Provider{p}
 		for i, n := 0, rapid.IntRange(1, 3).Draw(rt, "nscopes"); i < n; i++ {
 			s, err := p.CreateScope(context.Background())
@@ -120,27 +147,18 @@ func TestC03SharedConstructor(t *testing.T) {
 		var steps []string
 		canon := func() string { return strings.Join(desc, " ; ") + " | " + strings.Join(steps, " ") }
 		nt := false
-		for i := rapid.IntRange(2, 12).Draw(rt, "ngets"); i > 0; i-- {
-			ti := rapid.IntRange(0, len(targets)-1).Draw(rt, "target")
-			k := rapid.SampledFrom(keysOfIntMap(ownerOf)).Draw(rt, "iface")
-			ci := ownerOf[k]
+		observe := func(ci, ti int, v any, where string) {
 			c := calls[ci]
-			v, err := targets[ti].Get(scIfaces[k].typ)
-			where := fmt.Sprintf("get(t%d,%s)", ti, scIfaces[k].name)
-			steps = append(steps, where)
-			if err != nil {
-				rt.Fatalf("VIOLATION C03/shared-constructor [resolve]: %s: %v\n%s", where, err, canon())
-			}
 			b, ok := v.(*scBuf)
 			if !ok || b == nil {
-				rt.Fatalf("VIOLATION C03/shared-constructor [resolve]: %s yielded %T\n%s", where, v, canon())
+				rt.Fatalf("VIOLATION %s/shared-constructor [resolve]: %s yielded %T\n%s", prop, where, v, canon())
 			}
 			if b.tag != c.fn {
 				rt.Fatalf("VIOLATION C04/right-constructor [shared-code]: %s yielded an instance made by closure %q, call %d registered closure %q\n%s", where, b.tag, ci, c.fn, canon())
 			}
 			resolvedIn[place{ci, ti}] = true
 			for cj, d := range calls {
-				if cj != ci && d.fn == c.fn && resolvedIn[place{cj, ti}] && (c.life == 2) != (d.life == 2) {
+				if cj != ci && d.fn == c.fn && resolvedIn[place{cj, ti}] && (c.life != 2 || d.life != 2) {
 					nt = true
 				}
 			}
@@ -156,22 +174,62 @@ func TestC03SharedConstructor(t *testing.T) {
 				if c.life == 0 {
 					pl = place{ci, -1}
 				}
+				owner := map[int]string{0: "C01", 1: "C02"}[c.life]
 				if id, ok := held[pl]; ok {
 					if id != b.id {
-						rt.Fatalf("VIOLATION C03/shared-constructor [%s-instance]: %s yielded instance #%d, earlier resolutions of that registration there yielded #%d\n%s", lifeName(c.life), where, b.id, id, canon())
+						rt.Fatalf("VIOLATION %s/same-instance [shared-constructor/%s]: %s yielded instance #%d, earlier resolutions of that registration there yielded #%d\n%s", owner, lifeName(c.life), where, b.id, id, canon())
 					}
 				} else {
 					if transient[b.id] {
 						rt.Fatalf("VIOLATION C03/fresh [shared-constructor]: %s (a %s registration) yielded instance #%d, which had been handed out before as a transient by %s\n%s", where, lifeName(c.life), b.id, first, canon())
 					}
 					if seen {
-						rt.Fatalf("VIOLATION C03/shared-constructor [%s-instance]: %s yielded instance #%d, which belongs to another registration or scope (first handed out by %s)\n%s", lifeName(c.life), where, b.id, first, canon())
+						rt.Fatalf("VIOLATION %s/same-instance [shared-constructor/%s-foreign]: %s yielded instance #%d, which belongs to another registration or scope (first handed out by %s)\n%s", owner, lifeName(c.life), where, b.id, first, canon())
 					}
 					held[pl] = b.id
 				}
 			}
 			if !seen {
 				seenAt[b.id] = where
+			}
+		}
+		for i := rapid.IntRange(2, 12).Draw(rt, "ngets"); i > 0; i-- {
+			ti := rapid.IntRange(0, len(targets)-1).Draw(rt, "target")
+			ci := rapid.IntRange(0, len(calls)-1).Draw(rt, "call")
+			c := calls[ci]
+			switch {
+			case len(c.ifaces) > 0:
+				k := rapid.SampledFrom(c.ifaces).Draw(rt, "iface")
+				where := fmt.Sprintf("get(t%d,%s)", ti, scIfaces[k].name)
+				steps = append(steps, where)
+				v, err := targets[ti].Get(scIfaces[k].typ)
+				if err != nil {
+					rt.Fatalf("VIOLATION %s/shared-constructor [resolve]: %s: %v\n%s", prop, where, err, canon())
+				}
+				observe(ci, ti, v, where)
+			case c.name != "":
+				where := fmt.Sprintf("get(t%d,*scBuf:%s)", ti, c.name)
+				steps = append(steps, where)
+				v, err := targets[ti].GetKeyed(bufType, c.name)
+				if err != nil {
+					rt.Fatalf("VIOLATION %s/shared-constructor [resolve]: %s: %v\n%s", prop, where, err, canon())
+				}
+				observe(ci, ti, v, where)
+			default:
+				where := fmt.Sprintf("get(t%d,*scBuf[grp])", ti)
+				steps = append(steps, where)
+				vs, err := targets[ti].GetGroup(bufType, "grp")
+				if err != nil {
+					rt.Fatalf("VIOLATION %s/shared-constructor [resolve]: %s: %v\n%s", prop, where, err, canon())
+				}
+				if len(vs) != members {
+					rt.Fatalf("VIOLATION C04/group-members [shared-constructor]: %s yielded %d members, %d calls registered one\n%s", where, len(vs), members, canon())
+				}
+				for cj, d := range calls {
+					if d.member >= 0 {
+						observe(cj, ti, vs[d.member], fmt.Sprintf("%s[%d]", where, d.member))
+					}
+				}
 			}
 		}
 		col.Case(nt, canon(), canon())
